@@ -330,6 +330,30 @@ fn run(ctx: &mut Ctx) {
             }
         }
     }
+    // (a'') a damaged squitter stays damaged whatever 12-digit receiver time stamp stands in front of it: all
+    // zeros, all ones, and the constant a well-known multilateration client puts there ("\xff\0MLAT")
+    job += 1;
+    if ctx.mine(job) {
+        for (name, base) in bs.iter() {
+            let nbits = if base.df() == 11 { 56 } else { 112 };
+            patterns(nbits, 3, |m, _k| {
+                let f = Frame { v: base.v ^ m, nbits };
+                if expect_accept(&f) {
+                    return;
+                }
+                for ts in ["000000000000", "FFFFFFFFFFFF", "FF004D4C4154", "00004D4C4154"] {
+                    for line in [format!("@{ts}{};", f.hex()), format!("{ts}{}", f.hex())] {
+                        ctx.eval();
+                        ctx.count("timestamped-damaged-frame");
+                        if get_message(&line).is_some() {
+                            let hex = f.hex();
+                            ctx.violation(&format!("C04/get_message-timestamped/{name}"), &line, || format!("{name}: the damaged frame {hex} (remainder {:06X}) is accepted on the line {line}", f.remainder()), || json!({"kind": "gmline", "line": line}));
+                        }
+                    }
+                }
+            });
+        }
+    }
     // the unmodified bases must be accepted (the check is not vacuous "rejects everything")
     for (name, base) in &bs {
         ctx.eval();
@@ -404,6 +428,15 @@ fn replay(ctx: &mut Ctx, case: &Value) {
             }
             return;
         }
+    if case.get("kind").and_then(|x| x.as_str()) == Some("gmline") {
+        let line = case.get("line").and_then(|x| x.as_str()).unwrap_or("").to_string();
+        let got = get_message(&line).is_some();
+        crate::run::say(&format!("line {line}: get_message accepts: {got}"));
+        if got {
+            ctx.violation("C04/get_message-timestamped", &line, || "a damaged frame behind a time stamp is accepted".into(), || case.clone());
+        }
+        return;
+    }
     let hex = case.get("hex").and_then(|x| x.as_str()).unwrap_or("").to_string();
     let Some(f) = Frame::from_hex(&hex) else {
         ctx.machinery("bad hex in replay");
